@@ -169,3 +169,113 @@ pub fn run(entry: &str, class: &str) {
     // no destructor may run on these preset counts
     std::process::exit(0);
 }
+
+
+/// Uniqueness gates at preset counts: a handle whose allocation records `count` owners is taken through every call
+/// that decides on "am I the only owner"; the specification opens a gate iff the count is exactly 1 (Triomphe.tla,
+/// `Verdict` and the `rc = 1` guards), whatever the magnitude of the count
+pub fn gates(out: &str) {
+    use std::mem::MaybeUninit;
+    use triomphe::UniqueArc;
+    let imax = isize::MAX as usize;
+    let counts: Vec<usize> = vec![1, 2, 3, 257, 65537, (1 << 32) - 1, 1 << 32, (1 << 32) + 1, (1 << 33) + 1, (3 << 32) + 1, (1 << 48) + 1, imax - 1, imax];
+    let mut rows = vec![];
+    std::panic::set_hook(Box::new(|_| {}));
+    macro_rules! set {
+        ($h:expr, $probe:expr, $c:expr) => {{
+            let cell = cell_of(|| {
+                let _ = $probe;
+            });
+            unsafe { (*cell).store($c, Ordering::SeqCst) };
+            cell
+        }};
+    }
+    for &c in &counts {
+        let mut row = |gate: &str, granted: bool| rows.push(serde_json::json!({"count": format!("{:#x}", c), "one": c == 1, "gate": gate, "granted": granted}));
+        // is_unique / get_mut
+        {
+            let mut a = Arc::new(A::mk(1));
+            let cell = set!(a, Arc::strong_count(&a), c);
+            row("Arc::is_unique", a.is_unique());
+            row("Arc::get_mut", Arc::get_mut(&mut a).is_some());
+            let mut t: ThinArc<A, u8> = ThinArc::from_header_and_slice(A::mk(1), &[1, 2]);
+            let tcell = set!(t, ThinArc::strong_count(&t), c);
+            row("ThinArc::with_arc_mut(Arc::get_mut)", t.with_arc_mut(|x| Arc::get_mut(x).is_some()));
+            unsafe {
+                (*cell).store(1, Ordering::SeqCst);
+                (*tcell).store(1, Ordering::SeqCst);
+            }
+        }
+        // try_unique / TryFrom
+        for which in 0..2 {
+            let a = Arc::new(A::mk(1));
+            let cell = set!(a, Arc::strong_count(&a), c);
+            let r = if which == 0 { Arc::try_unique(a) } else { <UniqueArc<A> as std::convert::TryFrom<Arc<A>>>::try_from(a) };
+            row(if which == 0 { "Arc::try_unique" } else { "UniqueArc::try_from" }, r.is_ok());
+            unsafe { (*cell).store(1, Ordering::SeqCst) };
+            drop(r);
+        }
+        // try_unwrap
+        {
+            let a = Arc::new(A::mk(1));
+            let cell = set!(a, Arc::strong_count(&a), c);
+            match Arc::try_unwrap(a) {
+                Ok(v) => {
+                    row("Arc::try_unwrap", true);
+                    drop(v);
+                }
+                Err(a) => {
+                    row("Arc::try_unwrap", false);
+                    unsafe { (*cell).store(1, Ordering::SeqCst) };
+                    drop(a);
+                }
+            }
+        }
+        // unwrap_or_clone: granted = the value itself came out (no clone was made)
+        {
+            let a = Arc::new(A::mk(1));
+            let id = a.see().id;
+            let _cell = set!(a, Arc::strong_count(&a), c);
+            let v = Arc::unwrap_or_clone(a);
+            row("Arc::unwrap_or_clone", v.see().id == id);
+            // (when refused, the allocation keeps count - 1 owners nobody holds: left to the process exit)
+        }
+        // make_mut / make_unique / OffsetArc::make_mut: granted = mutation in place (same allocation)
+        {
+            let mut a = Arc::new(A::mk(1));
+            let p0 = Arc::as_ptr(&a);
+            let _cell = set!(a, Arc::strong_count(&a), c);
+            let _ = Arc::make_mut(&mut a);
+            row("Arc::make_mut", Arc::as_ptr(&a) == p0);
+            let mut b = Arc::new(A::mk(1));
+            let p0 = Arc::as_ptr(&b);
+            let _cell = set!(b, Arc::strong_count(&b), c);
+            let _ = Arc::make_unique(&mut b);
+            row("Arc::make_unique", Arc::as_ptr(&b) == p0);
+            let mut o = Arc::into_raw_offset(Arc::new(A::mk(1)));
+            let p0 = &*o as *const A;
+            let _cell = set!(o, OffsetArc::strong_count(&o), c);
+            let _ = o.make_mut();
+            row("OffsetArc::make_mut", &*o as *const A == p0);
+        }
+        // the deprecated writes through a possibly shared handle: granted = no panic
+        #[allow(deprecated)]
+        {
+            let mut a: Arc<MaybeUninit<u64>> = Arc::new_uninit();
+            let cell = set!(a, Arc::strong_count(&a), c);
+            let r = catch_unwind(AssertUnwindSafe(|| {
+                a.write(7);
+            }));
+            row("Arc<MaybeUninit<T>>::write (deprecated)", r.is_ok());
+            unsafe { (*cell).store(1, Ordering::SeqCst) };
+            let mut s: Arc<[MaybeUninit<u64>]> = Arc::new_uninit_slice(3);
+            let cell = set!(s, Arc::strong_count(&s), c);
+            let r = catch_unwind(AssertUnwindSafe(|| {
+                s.as_mut_slice()[0].write(7);
+            }));
+            row("Arc<[MaybeUninit<T>]>::as_mut_slice (deprecated)", r.is_ok());
+            unsafe { (*cell).store(1, Ordering::SeqCst) };
+        }
+    }
+    std::fs::write(out, serde_json::to_string(&rows).unwrap()).unwrap();
+}
